@@ -168,6 +168,28 @@ def _operand_calls(e: ast.AST, du: DefUse, fname: str, _seen=None) -> List[ast.C
     return out
 
 
+def expand_names_keep(fn: ast.FunctionDef, e: ast.AST, keep: Set[str]) -> ast.AST:
+    """expand_names, except that the names in `keep` stay as they are"""
+    import copy as _copy
+    from ..model import _binding_counts
+    cnt = _binding_counts(fn)
+    defs = {}
+    for n in ast.walk(fn):
+        if isinstance(n, ast.Assign) and len(n.targets) == 1 and isinstance(n.targets[0], ast.Name) and cnt.get(n.targets[0].id, 0) == 1 \
+                and n.targets[0].id not in keep:
+            defs[n.targets[0].id] = n.value
+
+    class X(ast.NodeTransformer):
+        def __init__(self, d):
+            self.d = d
+
+        def visit_Name(self, node):
+            if isinstance(node.ctx, ast.Load) and node.id in defs and self.d > 0:
+                return X(self.d - 1).visit(_copy.deepcopy(defs[node.id]))
+            return node
+    return X(4).visit(_copy.deepcopy(e))
+
+
 @rule("R-BC-BOTH", floor=1)
 def r_bc_both(ctx: RuleCtx, col: Collector):
     """Assembly with constrained dofs: the mask of removed entries depends on membership of the entry's ROW index and of
@@ -214,6 +236,30 @@ def r_bc_both(ctx: RuleCtx, col: Collector):
     tested = {norm(c.args[0]) for c in calls if c.args}
     need = {f"{selfn}.{base_r}", f"{selfn}.{base_c}"}
     construct = f"AssembleGeneral: selector self.{sel} built from membership tests"
+    if not (need <= tested) and len(tested) == 1:
+        # membership tested once on the connectivity both index vectors are expanded from, then placed along the row axis
+        # and along the column axis:  m = isin(conn, bc);  keep = ~(m[:, :, None] | m[:, None, :])
+        src = next(iter(tested))
+        defs_rc = [norm(n.value) for n in ast.walk(prep.node) if isinstance(n, ast.Assign) and isinstance(n.targets[0], ast.Attribute)
+                   and norm(n.targets[0]) in need]
+        if len(defs_rc) >= 2 and all(src in d for d in defs_rc):
+            mnames = {norm(n.targets[0]) for n in ast.walk(prep.node) if isinstance(n, ast.Assign) and n.value in calls}
+            from .common import expand_names
+            placements = set()
+            for d in seldef:
+                for x in ast.walk(expand_names_keep(prep.node, d, mnames)):
+                    if isinstance(x, ast.Subscript) and norm(x.value) in mnames and any(
+                            k in norm(x.slice) for k in ("None", "np.newaxis", "numpy.newaxis")):
+                        placements.add(norm(x.slice).replace("np.newaxis", "None").replace("numpy.newaxis", "None"))
+            if len(placements) >= 2:
+                col.ok(where_of(prep), prep.rel, line_of(seldef[0]), construct,
+                       f"membership of {src} placed along both the row and the column axis {sorted(placements)}")
+                return
+            if len(placements) == 1:
+                col.bad(where_of(prep), prep.rel, line_of(seldef[0]), construct,
+                        f"membership of {src} is placed along one axis only ({sorted(placements)[0]}): entries are removed for "
+                        f"constrained rows or for constrained columns, not for both")
+                return
     if need <= tested:
         col.ok(where_of(prep), prep.rel, line_of(seldef[0]), construct, f"tests {sorted(tested)}")
     else:
